@@ -190,6 +190,13 @@ def correspondence(ctx):
             life["actions"][k] = life["actions"].get(k, 0) + v
         dis += d
     tot["next_placeholder_life"] = life
+    tcs = impl_theory.theory_call_texts(cases, "tel", ctx.seed * 223 + 1, 64 if ctx.tier == "quick" else 800)
+    tc = {}
+    for st, d in par.pmap(impl_theory.theory_calls_chunk, [(c, H) for c in par.chunks(tcs, ctx.jobs)], ctx.jobs):
+        for k, v in st.items():
+            tc[k] = tc.get(k, 0) + v
+        dis += d
+    tot["theory_translate_calls"] = tc
     nsd, sdis = stepdata_check(ctx.seed * 211 + 17, 400 if ctx.tier == "quick" else 6000)
     tot["stepdata_call_sequences"] = nsd
     dis += sdis
